@@ -71,7 +71,10 @@ def ref_alpha_beta(xs, w, delta):
     keep = xs != 0
     xs_, p_, w_ = xs[keep], p[keep], w[keep]
     ystar = np.log10(xs_)
-    pstar = np.log10(-np.log(1 - p_ ** (1 / delta)))
+    with np.errstate(all="ignore"):
+        pstar = np.log10(-np.log(1 - p_ ** (1 / delta)))
+    if not (np.all(np.isfinite(pstar)) and np.all(np.isfinite(w_))):
+        return float("nan"), float("nan")      # plotting positions not representable at this delta
     A = np.c_[np.ones_like(pstar), pstar] * np.sqrt(w_)[:, None]
     sol, *_ = np.linalg.lstsq(A, ystar * np.sqrt(w_), rcond=None)
     a, b = sol
@@ -143,7 +146,10 @@ def run_case(case):
                                                 "scale": scale})
         else:
             ra, rb = ref_alpha_beta(xs, wref, d)
-            if not (abs(a - ra) <= 1e-8 * ra and abs(b - rb) <= 1e-8 * abs(rb)):
+            if not (np.isfinite(ra) and np.isfinite(rb)):
+                bad("fitted_delta_degenerate", {"order": how, "alpha": a, "beta": b, "delta": d,
+                                                "why": "the transformed plotting positions are not finite at the fitted delta"})
+            elif not (abs(a - ra) <= 1e-8 * ra and abs(b - rb) <= 1e-8 * abs(rb)):
                 bad("not_regression_solution", {"order": how, "alpha": a, "beta": b, "delta": d, "ref_alpha": ra,
                                                 "ref_beta": rb, "scale": scale})
             else:
